@@ -112,7 +112,7 @@ def run(tier, seed):
         if fail:
             reg = region(c, r['edits'], t0)
             if not reg and J.bold_led_para(d) and not r['err'] and J.unhead(strip_markers(r['final'])) == J.unhead(strip_markers(tm)): reg = ('D42', 'the "## " prefix of an all-caps bold paragraph is a function of its text: an edit that changes the capitals changes the prefix')
-            f, kn = J.classify(c, fail) if not reg else (fail, reg)
+            f, kn = J.classify(c, fail, placement=True) if not reg else (fail, reg)
             if kn and kn[0] == 'D29b': kn = ('D29', kn[1])
             if kn: ck.known(kn[0], kn[1], case)
             else: ck.violation('oracle', case, fail)
